@@ -400,7 +400,8 @@ func runC05(o *Out, rng *RNG, tier string, replay string) {
 		"a bit flip at every byte position (all 8 bits in thorough), extensions, splices and random garbage of a 40-byte-plaintext stored value, both ciphers, both read paths, both bases; " +
 		"(3) DecryptReader on a counting reader with injected read/close faults; (4) all ordered pairs of settings (wrong key) and of 8 groups of look-alike settings; " +
 		"(5) random name-space histories on twin bases + every operation x every argument once on a fixed tree; (6) sequences: overlapping stream sessions, overwrites, odd read buffers, child views, refused paths; " +
-		"(7) no nonce twice in the run nor across two child processes; callers reuse every buffer they pass in. " +
+		"(7) no nonce twice in the run nor across two child processes; no stored value twice in two child processes whose ambient state is pinned (math/rand not auto-seeded, " +
+		"the runtime's fake clock, pid 1 of an own pid namespace) nor after rand.Seed(k) puts the process-wide generator back; callers reuse every buffer they pass in. " +
 		"Non-trivial: the read answered with data, or the stored bytes are at least header+28 bytes long; distinct by (cipher, read path, key material, stored bytes)."
 	r := &c05Run{o: o, rng: rng, tier: tier, hostid: []byte(idutil.HostID())}
 	r.ciphers = []c05Cipher{
@@ -409,7 +410,12 @@ func runC05(o *Out, rng *RNG, tier string, replay string) {
 	}
 	o.Extra["hostid_len"] = len(r.hostid)
 	if os.Getenv("C05_CHILD") == "1" { // see crossProcessFresh
-		for _, ln := range r.childWrites() {
+		lines := r.childWrites()
+		if f := os.Getenv("C05_CHILD_OUT"); f != "" { // the fake-clock runtime frames what goes to stdout
+			must(os.WriteFile(f, []byte(strings.Join(lines, "\n")+"\n"), 0o644))
+			os.Exit(0)
+		}
+		for _, ln := range lines {
 			fmt.Println(ln)
 		}
 		os.Exit(0)
@@ -441,6 +447,8 @@ func runC05(o *Out, rng *RNG, tier string, replay string) {
 	r.nsSweep(settings[0])
 	r.sequences(settings[5], settings[0])
 	r.crossProcessFresh()
+	r.ambientTwins()
+	r.reseedFresh()
 	r.settingsIsolationProbe()
 	c05MultiCipherProbe(o, rng.Fork())
 }
